@@ -20,7 +20,8 @@ tensors (`err`) to the printed outputs.
   step <name=ten;ten|name=…>                 biclique: inputs per connection
   clear | end
 
-tensor := <d0>x<d1>…:<comma separated integers>;   transforms: id neg inv relu scale<k> add<c>
+tensor := <d0>x<d1>…:<comma separated integers>;   transforms: id neg inv relu clamp01 scale<k> add<c>
+(a trailing `_` = the in-place variant on the real side; same value)
 combine: sum mean prod min max custom (custom = Σ_j (j+1)·t_j over the dictionary order)
 -/
 open InfernoVerif.Layer Proto
@@ -52,11 +53,16 @@ def Ten.add (a b : Ten) : Ten :=
   else ⟨[], [], joinErr (joinErr a.err b.err) s!"add: shapes {showShape a.shape} and {showShape b.shape} differ"⟩
 def Ten.zerosLike (a : Ten) : Ten := ⟨a.shape, a.data.map fun _ => 0, a.err⟩
 
-def parseTrans? (s : String) : Option (Ten → Ten) :=
+/-- transforms are pure functions of VALUES here: a trailing `_` names the in-place variant the
+harness uses on the real layer (`x.mul_(k)`, `x.clamp_(0, 1)`, …), whose value is the same — the
+model hands every consumer a fresh value, aliasing of tensor objects exists only on the real side -/
+def parseTrans? (s0 : String) : Option (Ten → Ten) :=
+  let s := if s0.endsWith "_" then (s0.dropEnd 1).toString else s0
   if s = "id" then some id
   else if s = "neg" then some (Ten.map fun v => -v)
   else if s = "inv" then some (Ten.map fun v => 1 - v)
   else if s = "relu" then some (Ten.map fun v => if v < 0 then 0 else v)
+  else if s = "clamp01" then some (Ten.map fun v => if v < 0 then 0 else if v > 1 then 1 else v)
   else if s.startsWith "scale" then (s.drop 5).toInt?.map fun k => Ten.map fun v => k * v
   else if s.startsWith "add" then (s.drop 3).toInt?.map fun c => Ten.map fun v => v + c
   else none
